@@ -5,6 +5,7 @@ spec/MakeDiff.tla     transcription of make_diff + declarative clauses, exhausti
 spec/MakeDiffObs.tla  the declarative clauses evaluated by TLC on the real outputs
 """
 import json
+import re
 import random
 import subprocess
 import xml.dom.minidom
@@ -74,6 +75,64 @@ def post_checkstyle(rec):
 
 def key_of(rec):
     return f"pair:{json.dumps(rec.get('o'))}->{json.dumps(rec.get('f'))}:ctx={rec.get('ctx')}"
+
+
+def printed_diffs(v, tier, rng, sc):
+    """What `rustfmt --check` prints, judged by spec/PrintedDiffObs.tla."""
+    core.build(harness=False)
+    rustfmt = core.bin_path("rustfmt")
+    filler = "".join(f"fn keep{i}() {{}}\n" for i in range(9))
+    srcs = []
+    # generated: an early hunk that changes the number of lines, later hunks far below
+    for early in ("fn a() {\nlet x = 1; let y = 2;\n}\n", "fn a()\n{\n}\n", "fn  a( ) {}\n\n\n\n",
+                  "use b;\nuse a;\n", "fn a() {}\n"):
+        for late in ("fn  z( ) {}\n", "fn z() {\nlet q=1;\n}\n", "fn z() {}\n"):
+            srcs.append(("gen", early + filler + late + filler + "fn  w( ){}\n"))
+    files = sorted((core.REPO / "tests" / "source").glob("*.rs"))
+    rng.shuffle(files)
+    for p in files[: (40 if tier == "quick" else 300)]:
+        try:
+            srcs.append((p.name, p.read_text()))
+        except UnicodeDecodeError:
+            pass
+    recs, meta = [], []
+    d = sc / "printed"
+    d.mkdir()
+    env = core.run_env({"HOME": str(d)})
+    for k, (name, text) in enumerate(srcs):
+        f = d / f"p{k}.rs"
+        f.write_text(text)
+        a = subprocess.run([rustfmt, "--config", "skip_children=true", "--emit", "stdout", str(f)],
+                           cwd=d, env=env, capture_output=True, text=True, timeout=120)
+        if a.returncode != 0 or a.stderr.strip() or not a.stdout.startswith(str(f) + ":\n\n"):
+            continue
+        fmt = a.stdout[len(str(f)) + 3:]
+        c = subprocess.run([rustfmt, "--config", "skip_children=true", "--check", str(f)], cwd=d,
+                           env=env, capture_output=True, text=True, timeout=120)
+        ids = {}
+        num = lambda ln: ids.setdefault(ln, len(ids) + 1)
+        # the line semantics the reports are defined on: str::lines plus one virtual empty line
+        # when the text ends in a line terminator
+        o_lines = [x[:-1] if x.endswith("\r") else x for x in text.split("\n")] if text else []
+        f_lines = [x[:-1] if x.endswith("\r") else x for x in fmt.split("\n")] if fmt else []
+        printed, cur = [], None
+        for ln in c.stdout.split("\n"):
+            m = re.match(r"Diff in (.*?):(\d+):?$", ln)
+            if m and m.group(1) == str(f):
+                cur = {"lno": int(m.group(2)), "lines": []}
+                printed.append(cur)
+            elif cur is not None and ln[:1] in (" ", "-", "+"):
+                cur["lines"].append([{" ": "C", "-": "R", "+": "E"}[ln[0]], num(ln[1:])])
+        recs.append({"orig": [num(x) for x in o_lines], "fmt": [num(x) for x in f_lines],
+                     "printed": printed})
+        meta.append((name, text, c.stdout))
+    fails, states = core.eval_report("PrintedDiffObs", "PrintedDiffObs.cfg", recs, scratch=sc)
+    for idx, fl in fails:
+        name, text, out = meta[idx]
+        v.violation(f"printed:{','.join(sorted(fl['fails']))}:{name}:{core.fnv(text.encode())}",
+                    f"{fl['fails']}: the diff printed by --check for {name} is not consistent with the "
+                    f"texts at the stated line numbers", {"source": text[:6000], "printed": out[:6000]})
+    return len(recs)
 
 
 def run(tier, seed, replay=None):
@@ -149,6 +208,7 @@ def run(tier, seed, replay=None):
                                      "cs", "has", "json_wf", "cs_wf")}
             slim.append(s)
         fails, ostates = core.eval_report("MakeDiffObs", "MakeDiffObs.cfg", slim, scratch=sc)
+        n_printed = printed_diffs(v, tier, rng, sc)
         n_ok = len(slim) - len(fails)
         for idx, f in fails:
             rec = allrecs[idx]
@@ -172,6 +232,7 @@ def run(tier, seed, replay=None):
                     raise ToolError("binding self-test: corrupted observation accepted")
 
     cov = {
+           "printed_diffs": n_printed,
         "states": res.distinct, "transitions": res.states,
         "traces_validated_against_impl": summary["matched"] + n_ok,
         "model_table_entries": len(table),
